@@ -263,8 +263,34 @@ def check(run: Run) -> None:
         from . import c06
         R.share(run, "C15.k", c06, ["C06.a"])
 
+    with run.obligation("C15.l", "K2", "the keyed error series of a capturing map_ ticks only where an error happened or a recorded error goes away: removing a key erases its "
+                        "entry from the error output only if the error output CONTAINS that key (erasing an absent key still touches the dictionary and ticks it with an "
+                        "empty delta in a cycle in which nothing failed)"):
+        fa = R.fn(run, "src/hgraph/runtime/map_node.cpp", "remove_entry_at_slot")
+        cn = R.Canon()
+        er = [c for c in R.calls(fa, "erase") if isinstance(c.fn, C.Member) and cn(c.fn.obj) in ("error_mutation", "*error_mutation", "errors")]
+        run.sites(len(er), 1, "erase on the keyed error output")
+        for c in er:
+            key = cn(c.args[0]) if c.args else ""
+            ifs = [i for i in R.find(fa, lambda n: isinstance(n, C.If)) if any(x is c for x in i.then.walk())]
+            run.count(1, "C15.l")
+            want = f"{cn(c.fn.obj)}->contains({key})" if c.fn.arrow else f"{cn(c.fn.obj)}.contains({key})"
+            conj = []
+            for i in ifs:
+                stack = [i.cond]
+                while stack:
+                    e = stack.pop()
+                    if isinstance(e, C.Binary) and e.op == "&&":
+                        stack += [e.l, e.r]
+                    else:
+                        conj.append(re.sub(r"\s", "", cn(e)))
+            if re.sub(r"\s", "", want) not in conj:
+                run.finding("C15.l", "remove_entry_at_slot:error-erase-without-contains", f"the error output is erased for every removed key (guards: {conj}); it must be "
+                            f"guarded by `{want}`: a key that never failed makes the error series tick", loc=fa.loc(c))
+
 
 VARIANTS = [
+    {"id": "l-error-erase-for-every-removed-key", "expect": "C15.l", "edits": [{"file": "src/hgraph/runtime/map_node.cpp", "find": "            if (error_mutation != nullptr && error_mutation->contains(entry->key.view()))", "replace": "            if (error_mutation != nullptr)"}]},
     {"id": "h-revert-fix-failed-cycle-resumed", "expect": "C15.h", "edits": [{"file": "src/hgraph/runtime/graph.cpp", "find": "      !state.evaluation_failed && state.evaluation_cursor != 0 &&\n      state.evaluation_cursor != invalid_cursor;", "replace": "      state.evaluation_cursor != 0 && state.evaluation_cursor != invalid_cursor;"}]},
     {"id": "g-map-handler-stops-child", "expect": "C15.g", "edits": [{"file": MAP, "find": "                                                                         evaluation_time, error);\n                                                     })", "replace": "                                                                         evaluation_time, error);\n                                                         child.stop(evaluation_time);\n                                                     })"}]},
     {"id": "a-capture-without-optin", "expect": "C15.a", "edits": [{"file": NODE, "find": "                        capture = schema != nullptr && schema->captures_errors;", "replace": "                        capture = schema != nullptr;"}]},
